@@ -20,6 +20,14 @@ class ToolError(Exception):
     pass
 
 
+class CodePanic(Exception):
+    """The code under test panicked outside a logged call (the driver reports where): data, not a tool error."""
+    def __init__(self, where, args):
+        super().__init__(where)
+        self.where = where
+        self.drv_args = args
+
+
 def log(*a):
     print(*a, flush=True)
 
@@ -73,6 +81,9 @@ def run_drv(exe, args, timeout=3600, env=None, stdin=None):
                            text=True, timeout=timeout, env=e, input=stdin)
     except subprocess.TimeoutExpired:
         raise ToolError('driver timed out: %s' % ' '.join(map(str, args)))
+    if r.returncode == 3 and 'PANIC-IN-CODE-UNDER-TEST' in r.stdout:
+        where = [l for l in r.stdout.splitlines() if l.startswith('PANIC-IN-CODE-UNDER-TEST')][-1][len('PANIC-IN-CODE-UNDER-TEST '):]
+        raise CodePanic(where, [str(a) for a in args])
     return r.returncode, r.stdout
 
 
